@@ -287,15 +287,17 @@ def run (ρ : List FunDef) : Nat → Job → St → R
        | some s2 => (.val l, s2)
        | none => (.thrown (.evalErr .redefined), s1))
     | .assignDecl x e =>
-      bnd (run ρ f (.node e) s) (fun l s1 =>
-        -- rule PARAM_TEMPORARY_ALIASED: the rhs is a *name* whose value still carries the return-value flag
-        -- (a parameter bound to a temporary): it is adopted, not copied
-        let s1 := tagParamAlias e s1 l
-        bnd (cloneIfNecessary s1 l) (fun l2 s2 =>
-          let s3 := s2.setCell l2 { s2.cell l2 with ret := false }
-          match s3.addObject x l2 with
-          | some s4 => (.val l2, s4)
-          | none => (.thrown (.evalErr .redefined), s3)))
+      -- Function_Push_Pop (fix 6e1a52e: temporaries of the right-hand side live until the value has been copied), then as Equation's first assignment
+      withFnCall (fun s0 =>
+        bnd (run ρ f (.node e) s0) (fun l s1 =>
+          -- rule PARAM_TEMPORARY_ALIASED: the rhs is a *name* whose value still carries the return-value flag
+          -- (a parameter bound to a temporary): it is adopted, not copied
+          let s1 := tagParamAlias e s1 l
+          bnd (cloneIfNecessary s1 l) (fun l2 s2 =>
+            let s3 := s2.setCell l2 { s2.cell l2 with ret := false }
+            match s3.addObject x l2 with
+            | some s4 => (.val l2, s4)
+            | none => (.thrown (.evalErr .redefined), s3)))) s
     | .eq op lhs rhs =>
       -- Function_Push_Pop; rhs first, then lhs
       let isRef := match lhs with | .refDecl _ => true | _ => false
